@@ -50,7 +50,7 @@ def run(c):
                      'what the theorems are about) and no run may crash; plus arbitrary well-formed XML built from SCXML vocabulary, validated and - unless validation reports a fatal issue - interpreted for a '
                      'bounded number of steps, in child processes; plus the document-level fault matrix: for every place where the interpreter evaluates an '
                      'expression or executes content (%d sites: attributes and children of assign/log/send/cancel/foreach/script/if/elseif/transition/data/invoke/'
-                     'donedata, %d kinds of blocks: onentry, onexit, transition, initial and history transitions, finalize, nested if/else/foreach) and every fault kind '
+                     'donedata, and the <data> elements of an invoked session initialised from <param>/namelist values its datamodel rejects; %d kinds of blocks: onentry, onexit, transition, initial and history transitions, finalize, nested if/else/foreach) and every fault kind '
                      '(lua %d, promela %d: syntax error, run-time errors with string / nil / table error values, nil arithmetic, division and modulo by zero, '
                      'INT_MIN / -1, index out of range, illegal locations, unsupported types, undeliverable targets without and with delay) a small document with '
                      'markers before and behind the failing element and in the next block, run by both engines in child processes (c07run) and judged by the '
